@@ -624,9 +624,9 @@ def run_case(arg):
         nodes = list(all_nodes(spec))
         r["stats"] = {"nodes": len(nodes), "links": sum(1 for _, s in nodes if s["k"] == "l"),
                       "empty_dirs": sum(1 for _, s in nodes if s["k"] == "d" and not s["c"]),
-                      "empty_files": sum(1 for _, s in nodes if s["k"] == "f" and s["size"] == 0),
+                      "empty_files": sum(1 for _, s in nodes if s["k"] == "f" and s.get("size", 1) == 0),
                       "depth": max(len(p) for p, _ in nodes),
-                      "bytes": sum(s["size"] for _, s in nodes if s["k"] == "f")}
+                      "bytes": sum(s.get("size", len(s.get("hex", "")) // 2) for _, s in nodes if s["k"] == "f")}
         # ---- expected by the property
         expmap = res["expmap"]
         root_has_entry = cfg["mode"] not in ("dot",)
@@ -717,6 +717,19 @@ def run_case(arg):
                 rt = model.call("roundtrip", [ctx, mnode, DEST0])
                 if rt[0] == 0 and not cfg.get("xnone"):
                     r["model"].append("extractall raised %s but the model's rebuild succeeds" % res["exc"][0])
+        # an exception in writeall('.') on a tree with a letter+colon name at the top, which the model (that has
+        # _sanitize_archive_arcname in it) predicts as well, belongs to that defect
+        if res["exc"] is not None and cfg["mode"] == "dot" and not r["model"] and any(
+                len(n) >= 2 and n[1] == ":" and n[0].isascii() and n[0].isalpha() for n, _ in spec.get("c", [])):
+            predicted = True
+            if use_model:
+                if res["stage"] == "write":
+                    predicted = w[0] != 0
+                elif res["stage"] == "extract":
+                    predicted = model.call("roundtrip", [ctx, mnode, DEST0])[0] != 0
+            if predicted:
+                r["diffs"] = [(p, "drive-letter-name" if c == "unclassified" and w_.startswith("exception") else c, w_)
+                              for p, c, w_ in r["diffs"]]
         r["time"] = round(time.time() - t0, 3)
         r["model"] = r["model"][:6]
         r["diffs"] = [list(d) for d in r["diffs"][:12]]
@@ -1051,6 +1064,20 @@ def unpriv_worker(arg):
         pw = pwd.getpwnam("nobody")
     except KeyError:
         return {"ran": False, "note": "no user nobody"}
+    # the interpreter's library may be unreadable for nobody: load everything that is needed first
+    try:
+        import platform, getpass, shutil, tempfile, hashlib, traceback, stat, lzma, bz2, zlib, encodings.idna  # noqa
+        import py7zr, py7zr.cli, py7zr.compressor, py7zr.helpers  # noqa
+        from harness import arch  # noqa
+        tempfile.gettempdir()
+        warm = {"k": "d", "m": 0o755, "ns": 10 ** 18, "c": [["f", {"k": "f", "m": 0o644, "ns": 10 ** 18, "hex": "00"}],
+                                                          ["l", {"k": "l", "to": "f"}]]}
+        wr = run_case({"spec": warm, "cfg": {"mode": "rel", "deref": False, "pw": None, "entry": "api", "relout": False},
+                       "model": False})
+        if wr.get("crash") or wr.get("exc"):
+            return {"ran": False, "note": "warm-up failed: %r" % (wr.get("crash") or wr.get("exc"),)}
+    except Exception as e:  # noqa
+        return {"ran": False, "note": "import failed: %s" % e}
     if os.getuid() != 0:
         uid = os.getuid()
     else:
